@@ -189,9 +189,9 @@ Proof.
   repeat (destruct Hc as [-> | Hc]; [ reflexivity | ]). subst b. reflexivity.
 Qed.
 
-Definition idx (n : nat) : list N := map N.of_nat (seq 0 n).
+Definition idx (n : N) : list N := map N.of_nat (seq 0 (N.to_nat n)).
 
-Lemma idx_in n i : i < N.of_nat n -> In i (idx n).
+Lemma idx_in n i : i < n -> In i (idx n).
 Proof.
   intro H. unfold idx. apply in_map_iff. exists (N.to_nat i). split.
   - apply N2Nat.id.
